@@ -684,6 +684,16 @@ func (p *Pager) RunRollbackTx(prev *Image, tx Tx, jm JournalMode, outcome Rollba
 			}
 			off += int64(8 + ps)
 		}
+		// SQLite, before it syncs (pager.c syncJournal, "an obscure problem"): a journal left by a PERSIST-mode
+		// transaction can be longer than this one; if what follows at the next sector boundary looks like a journal
+		// header of that old transaction, its first byte is zeroed so that a hot-journal rollback does not run on into it
+		next := (off + int64(sectorSize) - 1) / int64(sectorSize) * int64(sectorSize)
+		if old, rerr := os.ReadFile(db.JournalPath()); rerr == nil && int64(len(old)) >= next+8 && string(old[next:next+8]) == "\xd9\xd5\x05\xf9\x20\xa1\x63\xd7" {
+			if err := db.WriteJournalAt(ctx, jf, []byte{0}, next, o); err != nil {
+				unlockAll()
+				return err
+			}
+		}
 		// sync: rewrite nRec
 		binary.BigEndian.PutUint32(hdr[8:], uint32(len(seg)))
 		if err := db.WriteJournalAt(ctx, jf, hdr[:12], hdrOff, o); err != nil {
